@@ -23,6 +23,7 @@ def jobs_pre(key_from_list):
     def pre(eng, fr):
         cs = fr.env.pop('contigs')
         eng.spec_env['CONTIGS'] = cs
+        fr.env.setdefault('contig_blacklist', [])        # no contig is skipped (default options)
         if key_from_list:
             p = fr.env['g_p']
             eng.assume(z3.And(p.z >= 0, p.z < cs.n))
@@ -468,3 +469,13 @@ def qflag_replay(inputs, clause):
 
 
 read_iterator.replay = qflag_replay
+
+
+_extra_c05 = extra_units
+
+
+def extra_units():      # noqa: F811
+    """... and a molecule leaves the buffer exactly once, whichever pooling method (C07's ejection blocks)"""
+    from contracts import c07
+    from pyvc.units import share
+    return _extra_c05() + [share(u, PROP) for u in (c07.pop0, c07.pop1)]
